@@ -248,6 +248,7 @@ inductive Status
   | errEncode            -- EncodeReport failed
   | noReport             -- (false, nil, nil)
   | report               -- (true, bytes, nil)
+  | panicked             -- the call panicked (never produced by the model: `report_never_panics`)
 deriving DecidableEq, Repr
 
 /-- what is observable of one `Report` call: the keys handed to `CheckUpkeep` (`[]` if it was not
@@ -387,6 +388,15 @@ def processHead (st : Stager) (h : Head) : Stager :=
   else if h.active = 0 then st
   else if h.runErr then st
   else { block := h.block, ids := stageIds h.results }
+
+/-- the stager `Observe` reads at observation point `n` of a head sequence: after `n` heads have
+been processed completely — also WHILE head `n` (0-based) is being processed, i.e. between its
+`prepareBlock` / `prepareIdentifier` calls and its `advance`: `advance` copies the staged list, so
+identifiers staged so far for the head in progress are invisible to `Observe`. -/
+def stagerAt (heads : List Head) (n : Nat) : Stager := (heads.take n).foldl processHead {}
+
+/-- sampling of head `h` reaches the staging loop (`Eligible` is called for each result) -/
+def headSampled (h : Head) : Bool := !h.srcErr && h.active != 0 && !h.runErr
 
 def idBytes (id : Option Bytes) : Bytes := id.getD []
 
